@@ -7,11 +7,14 @@ import (
 	"fmt"
 	"strings"
 
+	"0chain.net/chaincore/block"
 	"0chain.net/chaincore/client"
 	"0chain.net/chaincore/transaction"
 	"0chain.net/core/common"
 	"0chain.net/core/datastore"
 	"0chain.net/core/encryption"
+	"0chain.net/core/viper"
+	"0chain.net/miner"
 	"github.com/0chain/common/core/currency"
 
 	"verifh/mon"
@@ -57,6 +60,93 @@ func cloneTxnJSON(js []byte) *transaction.Transaction {
 	return t
 }
 
+
+// ---------------------------------------------------------------------------------------------------
+// block path: the same transaction as it appears inside a generated block (output, output hash, status set by the
+// generator) and as the verifying miners treat it: block JSON -> ComputeProperties -> miner.Chain.ValidateTransactions
+// -> Transaction.ValidateWrtTimeForBlock(ctx, block creation date, !aggregate) [-> aggregate signature check].
+
+var c30Outputs = []string{"", `{"from":"a","to":"b","amount":1}`, "output:done"}
+
+// c30BlockForm gives a copy of t the way a generator leaves it in a block: an output and the hash of that output
+// (computed here with the hash primitive, not with the transaction's own method).
+func c30BlockForm(t *transaction.Transaction, out string) *transaction.Transaction {
+	bt := cloneTxnJSON(txnJSON(t))
+	bt.TransactionOutput = out
+	bt.OutputHash = encryption.Hash(out)
+	bt.Status = transaction.TxnSuccess
+	return bt
+}
+
+// c30AcceptBlockTxn: a transaction of a received block (decode + ComputeProperties, as Block.ComputeProperties does for
+// each of its transactions), then the real ValidateWrtTimeForBlock with the block's creation date.
+func c30AcceptBlockTxn(js []byte, blockTime common.Timestamp, validateSignature bool) (bool, string) {
+	t := transaction.Provider().(*transaction.Transaction)
+	if err := datastore.FromJSON(js, t); err != nil {
+		return false, "decode"
+	}
+	var err error
+	if p := guard(func() { err = t.ValidateWrtTimeForBlock(context.Background(), blockTime, validateSignature) }); p != "" {
+		return false, "PANIC"
+	}
+	if err != nil {
+		return false, "validate:" + errCode(err)
+	}
+	return true, "ACCEPTED"
+}
+
+// c30BlockEnv holds what is needed to put one transaction into a block next to honest ones.
+type c30BlockEnv struct {
+	w          *world.World
+	mc         *miner.Chain
+	companions [][]byte // JSON of validly signed block-form transactions of other senders
+	round      int64
+}
+
+func newC30BlockEnv(w *world.World, scheme string) *c30BlockEnv {
+	miner.SetupMinerChain(w.Chain)
+	e := &c30BlockEnv{w: w, mc: miner.GetMinerChain(), round: 100}
+	for i := 0; i < 3; i++ {
+		from := schemeWallet(scheme, fmt.Sprintf("%d:c30-companion-%s-%d", mon.Seed(), scheme, i))
+		to := schemeWallet(scheme, fmt.Sprintf("%d:c30-companion-to-%s", mon.Seed(), scheme))
+		t := w.MakeTxn(world.TxnSpec{From: from, To: to.ID, Value: currency.Coin(10 + i), Fee: 1e9, Nonce: int64(1 + i), Type: transaction.TxnTypeSend})
+		e.companions = append(e.companions, txnJSON(c30BlockForm(t, c30Outputs[i%len(c30Outputs)])))
+	}
+	return e
+}
+
+// acceptInBlock builds a block of k honest transactions with the given one at position pos, sends it through the
+// block receive path (JSON -> Block.ComputeProperties) and asks the real miner.Chain.ValidateTransactions.
+func (e *c30BlockEnv) acceptInBlock(tj []byte, k, pos int) (bool, string) {
+	e.round++
+	b := block.NewBlock(e.w.Chain.GetKey(), e.round)
+	b.CreationDate = e.w.Now
+	for i := 0; i < k; i++ {
+		if i == pos {
+			b.Txns = append(b.Txns, cloneTxnJSON(tj))
+		}
+		b.Txns = append(b.Txns, cloneTxnJSON(e.companions[i]))
+	}
+	if pos >= k {
+		b.Txns = append(b.Txns, cloneTxnJSON(tj))
+	}
+	rb, err := recvBlock(blockJSON(b))
+	if err != nil {
+		return false, "decode"
+	}
+	if len(rb.Txns) != k+1 {
+		return false, "decode:txns-lost"
+	}
+	var verr error
+	if p := guard(func() { verr = e.mc.ValidateTransactions(context.Background(), rb) }); p != "" {
+		return false, "PANIC"
+	}
+	if verr != nil {
+		return false, "validate:" + errCode(verr)
+	}
+	return true, "ACCEPTED"
+}
+
 type txnMut struct {
 	field string
 	class string
@@ -83,6 +173,8 @@ func c30Child(run *mon.Run, tier, scheme string) {
 		peers = append(peers, schemeWallet(scheme, fmt.Sprintf("%d:c30-peer-%s-%d", mon.Seed(), scheme, i)))
 	}
 	scNames := []string{"faucet", "storage", "miner", "zcn"}
+	benv := newC30BlockEnv(w, scheme)
+	evalNo := 0
 	for bi := 0; bi < nBase; bi++ {
 		from := schemeWallet(scheme, fmt.Sprintf("%d:c30-%s-%d", mon.Seed(), scheme, bi))
 		to := peers[r.Intn(len(peers))]
@@ -106,6 +198,15 @@ func c30Child(run *mon.Run, tier, scheme string) {
 		}
 		base := w.MakeTxn(spec)
 		js := txnJSON(base)
+		bs := []int{1, 2, 1000}[bi%3]
+		viper.Set("server_chain.block.validation.batch_size", bs)
+		if err := w.Chain.ChainConfig.FromViper(); err != nil {
+			panic(err)
+		}
+		if benv.mc.ValidationBatchSize() != bs {
+			run.Inconclusive("cannot set validation batch size")
+			return
+		}
 		muts := c30Mutations(base, from, to, peers, r)
 		evalAll := func(cache string) {
 			for _, m := range muts {
@@ -136,6 +237,48 @@ func c30Child(run *mon.Run, tier, scheme string) {
 					if bi == 0 {
 						run.Sample(map[string]interface{}{"scheme": scheme, "field": m.field, "class": m.class, "variant": v, "outcome": how})
 					}
+					// ---- the same tampered transaction delivered inside a block (output + correct output hash)
+					evalNo++
+					out := c30Outputs[evalNo%len(c30Outputs)]
+					bj := txnJSON(c30BlockForm(t, out))
+					k := evalNo % (len(benv.companions) + 1)
+					pos := (evalNo / 4) % (k + 1)
+					hashStale := v == "stale" && m.field != "Signature" // the carried hash is not the hash of the contents
+					type res struct {
+						path  string
+						ok    bool
+						how   string
+						judge bool
+					}
+					var rs []res
+					ok1, how1 := c30AcceptBlockTxn(bj, w.Now, true)
+					rs = append(rs, res{"ValidateWrtTimeForBlock(sig=true)", ok1, how1, true})
+					// without the signature check the function still owes the hash check; the signature is then the
+					// business of the aggregate check, judged through ValidateTransactions below
+					ok2, how2 := c30AcceptBlockTxn(bj, w.Now, false)
+					rs = append(rs, res{"ValidateWrtTimeForBlock(sig=false)", ok2, how2, hashStale})
+					ok3, how3 := benv.acceptInBlock(bj, k, pos)
+					rs = append(rs, res{"miner.ValidateTransactions", ok3, how3, true})
+					for _, x := range rs {
+						run.Eval(1)
+						run.Count("c30.block_tamper_evaluated", 1)
+						run.Count("c30.block_path."+x.path, 1)
+						run.Distinct(fmt.Sprintf("block|%s|%s|%s|%s|%s|%s|kind=%d|bs=%d|%s", scheme, x.path, m.field, m.class, v, cache, kind, bs, x.how))
+						if !x.judge {
+							continue
+						}
+						run.Count("c30.block_outcome."+strings.SplitN(x.how, ":", 2)[0], 1)
+						if x.how == "PANIC" {
+							violate(run, "C30:block-txn-validation-panics", fmt.Sprintf("scheme %s: %s panicked on a block transaction with %s changed (%s, hash %s)", scheme, x.path, m.field, m.class, v),
+								map[string]interface{}{"seed": mon.Seed(), "scheme": scheme, "field": m.field, "class": m.class, "variant": v, "path": x.path, "tampered_block_txn": string(bj)})
+						}
+						if x.ok {
+							run.Count("c30.block_accepts_tampered."+x.path, 1)
+							violate(run, "C30:field="+m.field,
+								fmt.Sprintf("scheme %s: transaction %s (type %d) signed by its owner, then %s changed (%s, hash %s) and delivered as a block transaction (output %q with its correct output hash, block of %d txns, validation batch size %d): %s accepts it", scheme, base.Hash[:12], base.TransactionType, m.field, m.class, v, out, k+1, bs, x.path),
+								map[string]interface{}{"seed": mon.Seed(), "scheme": scheme, "field": m.field, "class": m.class, "variant": v, "path": x.path, "signed": string(js), "tampered_block_txn": string(bj), "block_time": int64(w.Now), "block_txns": k + 1, "position": pos, "batch_size": bs})
+						}
+					}
 				}
 			}
 		}
@@ -146,6 +289,18 @@ func c30Child(run *mon.Run, tier, scheme string) {
 			continue
 		}
 		run.Count("c30.base_accepted", 1)
+		// the untampered transaction in block form is accepted on every block path (otherwise rejections above prove nothing)
+		for oi, out := range c30Outputs {
+			bj := txnJSON(c30BlockForm(base, out))
+			a1, h1 := c30AcceptBlockTxn(bj, w.Now, true)
+			a2, h2 := c30AcceptBlockTxn(bj, w.Now, false)
+			a3, h3 := benv.acceptInBlock(bj, (bi+oi)%(len(benv.companions)+1), oi%2)
+			if !a1 || !a2 || !a3 {
+				run.Inconclusive(fmt.Sprintf("scheme %s: validly signed base transaction kind %d rejected as a block transaction (%s / %s / %s)", scheme, kind, h1, h2, h3))
+				continue
+			}
+			run.Count("c30.block_base_accepted", 1)
+		}
 		evalAll("warm") // the sender's key is now cached by client id
 		run.Checkpoint()
 	}
